@@ -2,15 +2,40 @@ from props import job
 
 PROP = dict(
     level="exploration",
-    rule="tbd",
-    assumptions=[],
+    technique="rapid state machine over the real InvoiceRegistry on bbolt and sqlite in one process; "
+              "validity predicate over the sent-HTLC history + LookupInvoice projections; bbolt-vs-sqlite differential",
+    rule=("One evaluation = one generated history (6..45 events, 60 in the thorough tier) executed against two "
+          "real InvoiceRegistry instances (bbolt channeldb store and SQL store on sqlite, fresh databases per case): "
+          "addInvoice {regular, hold, AMP, blinded-path} x {zero amount} x payment-addr {absent, optional, required}; "
+          "payment plans of 1-4 HTLCs (MPP total+addr, AMP shares via amp.SeedSharer, keysend, blinded pathID, "
+          "legacy none, spontaneous keysend/AMP, unknown invoice) whose amounts split the declared total exactly / "
+          "1 msat short / over, with wrong or foreign addresses, unequal totals, corrupted AMP shares and expiry = "
+          "height+max(final delta, reject delta)+{-1,0,+1,+25}; interleaved sends, replays, CancelInvoice, "
+          "SettleHodlInvoice, external CancelSet, block and clock advances (MPP set timeout through the real event "
+          "loop). After every event every invoice is looked up and every oracle runs. "
+          "Non-trivial = the history contains an MPP/AMP set of >=2 HTLCs that completed (settled, or accepted on a "
+          "hold invoice), or a set of >=2 HTLCs whose last HTLC was failed while earlier ones were held, or a replay "
+          "of an HTLC that is on record as settled or canceled. Distinct = distinct generated histories."),
+    level_note=("exploration of generated histories; the set-timeout and replay points are generated, not enumerated"),
+    assumptions=[
+        "postgres is not available: the SQL store is exercised on sqlite only",
+        "time/height based invoice expiry (InvoiceExpiryWatcher) is not exercised: the watcher runs on a frozen clock and sees no blocks; cancellation is issued explicitly through CancelInvoice",
+        "the MPP set timeout is made deterministic by a test clock that pairs the event loop's Now()/TickAfter() calls (identified by the caller InvoiceRegistry.tickAt) and a sentinel invoice that keeps the release heap non-empty; a timeout not observed within 30 s wall clock makes the case inconclusive (skipped, counted), never a violation",
+        "replays of HTLCs that were failed without ever being recorded on an invoice are treated as fresh notifications (no replay verdict is asserted for them); heights of replays are >= the original height",
+        "the HTLC interceptor only answers CancelSet, and only for HTLCs that carry the address of the invoice they target; AmountPaid overrides are not generated",
+        "after the first concurrent batch of a history the bbolt-vs-sqlite differential is switched off (schedules differ); all per-store oracles stay on",
+        "SHA-256 collisions do not occur (hashes, preimages, addresses and AMP shares are derived from a rapid-drawn nonce)",
+        "known finding C15:replay@spontaneous-expiry-precheck: replays of recorded AMP/keysend HTLCs at a height where expiry < height+FinalCltvRejectDelta with AcceptAMP/AcceptKeySend on are excluded by construction while the key is listed as known",
+    ],
     jobs=dict(
         quick=[
-            job("invoices", "^TestVerifC15ReplayPrecheck$", ["TestVerifC15ReplayPrecheck"], 1, shards=1, allow_short=True),
+            job("invoices", "^TestVerifC15ReplayPrecheck$", ["TestVerifC15ReplayPrecheck"], 1, shards=1,
+                allow_short=True),
             job("invoices", "^TestVerifC15Registry$", ["TestVerifC15Registry"], 300, shards=8),
         ],
         thorough=[
-            job("invoices", "^TestVerifC15ReplayPrecheck$", ["TestVerifC15ReplayPrecheck"], 1, shards=1, allow_short=True),
+            job("invoices", "^TestVerifC15ReplayPrecheck$", ["TestVerifC15ReplayPrecheck"], 1, shards=1,
+                allow_short=True),
             job("invoices", "^TestVerifC15Registry$", ["TestVerifC15Registry"], 1500, shards=12, timeout=1200,
                 env=dict(VERIF_C15_STEPS=60)),
             job("invoices", "^TestVerifC15Concurrent$", ["TestVerifC15Concurrent"], 400, shards=4, timeout=1200,
